@@ -1,9 +1,9 @@
 package main
 
 import (
-	"go/token"
 	"fmt"
 	"go/constant"
+	"go/token"
 	"go/types"
 	"strings"
 
